@@ -918,7 +918,10 @@ class FastaSim(Base):
         f2 = self.F(chars_per_line=self.cfg["cpl"])
         fasta.set_alignment(f2, ali, op["names"])
         st, new = call(self.through, "memory", f2.write, self.F.read, ".fasta")
-        st2, back = call(fasta.get_alignment, new, ("_",), type(seqs[0])) if st == "ok" else ("exc", new)
+        # additional_gap_chars: characters to be treated as gaps besides '-'; none of them occurs in the written rows,
+        # so the choice must not matter (given as a tuple or, as documented, as a str)
+        gaps = [("_",), ".", (".", "_"), "~.", "", ("*",) if op["kind"] == "nuc" else ("?",), "+("][op["seed"] % 7]
+        st2, back = call(fasta.get_alignment, new, gaps, type(seqs[0])) if st == "ok" else ("exc", new)
         if st2 == "exc":
             self.fail("typed:get_alignment-raised", got=exc_name(back), msg=str(back)[:200])
         if any(type(x) is not type(seqs[0]) for x in back.sequences):
